@@ -502,7 +502,7 @@ fn gen_stream(gen: usize, rng: &mut Rng, enc: &mut Encoder, stream_hint: u32) ->
                 let m = match (i + rng.usize(0, 1)) % 4 {
                     0 => Msg { type_id: 8, msid: stream_hint, ts, data: rng.bytes_in(0, 3) },
                     1 => Msg { type_id: 9, msid: stream_hint, ts, data: rng.bytes_in(0, 3) },
-                    2 => Msg { type_id: 4, msid: 0, ts, data: { let mut d = vec![0u8, 6]; d.extend_from_slice(&(i as u32).to_be_bytes()); d } },
+                    2 => Msg { type_id: 4, msid: 0, ts, data: { let mut d = vec![0u8, 6]; d.extend_from_slice(&((i as u32) / 8).to_be_bytes()); d } },
                     _ => Msg { type_id: 3, msid: 0, ts, data: (i as u32).to_be_bytes().to_vec() },
                 };
                 let c = enc.random_choice(rng, sessprep::usual_csid(m.type_id), &m, true, false);
@@ -1014,7 +1014,7 @@ impl Check for C03 {
     }
     fn plan(&self, tier: Tier) -> Plan {
         let mut p = Plan::new(tier.pick(1_500_000, 150_000_000), tier.pick(30.0, 480.0));
-        p.mandatory = 4;
+        p.mandatory = 6;
         p.cpu_budget_s = 60.0;
         p
     }
@@ -1031,6 +1031,34 @@ impl Check for C03 {
         }
         if k == 1 {
             f15_case(out);
+            return;
+        }
+        if k == 4 || k == 5 {
+            // a million complete one-byte messages in ONE call (zero-length audio on a stream nobody
+            // publishes on, then 1,000,000 bare type-3 headers): work per message must not grow with
+            // what is still buffered behind it
+            out.eval(1);
+            let mut wire = vec![0x04u8, 0, 0, 0, 0, 0, 0, 8, 9, 0, 0, 0];
+            wire.extend(std::iter::repeat(0xC4u8).take(1_000_000));
+            let ctx = || json!({"input": "04 000000 000000 08 09000000 then 1,000,000 x C4 in one call", "target": if k == 4 { "ChunkDeserializer" } else { "ServerSession" }});
+            out.count("calls_monitored", 1);
+            if k == 4 {
+                lib_call(out, "ChunkDeserializer::get_next_message (drained)", &ctx, || {
+                    let mut d = rml_rtmp::chunk_io::ChunkDeserializer::new();
+                    let mut n = 0u64;
+                    let mut input: &[u8] = &wire;
+                    while let Ok(Some(_)) = d.get_next_message(input) {
+                        n += 1;
+                        input = &[];
+                    }
+                    n
+                });
+            } else {
+                lib_call(out, "ServerSession::handle_input", &ctx, || {
+                    let (mut s, _) = rml_rtmp::sessions::ServerSession::new(rml_rtmp::sessions::ServerSessionConfig::new()).expect("session");
+                    s.handle_input(&wire).map(|r| r.len()).unwrap_or(0)
+                });
+            }
             return;
         }
         if k == 2 || k == 3 {
@@ -1083,7 +1111,7 @@ impl Check for C03 {
         out.sample(|| json!({"target": target_name, "state": if target_name == "server" { SERVER_STATES[state] } else if target_name == "client" { CLIENT_STATES[state] } else { "-" }, "generator": GENERATORS[gen]}));
     }
     fn rule(&self) -> String {
-        "targets {Handshake (both roles, with/without generated p0+p1), ChunkDeserializer + MessagePayload::to_rtmp_message on everything it returns, MessagePayload::to_rtmp_message / rml_amf0::deserialize on arbitrary (type id, body), ServerSession in 10 state classes, ClientSession in 10 state classes} x generators {random bytes (optionally with a valid basic header); well-formed chunk streams carrying arbitrary (type id, body) with bodies empty/short/random/valid/valid-truncated/wrong-arity AMF0/AMF0 nested <= 32/declared lengths with nothing behind/mutated; protocol commands and data messages with arbitrary argument lists (NaN, negative, huge, fractional ids; missing and ill-typed arguments; AMF3-flagged) interleaved with media and application calls with arbitrary ids; chunk-level hostility (shrinking length mid-message, delta headers with small extended timestamps, compressed headers on unseen csids, chunk sizes 0/1/2^31-1/top bit, aborts, zero-length messages, 16 MiB announced with few bytes, hundreds of distinct csids, stray type-3 chunks, arbitrary header fields); mutated valid foreign streams; valid foreign streams}, enumerated round-robin (every target-state x generator pair), each fed in a random partition. Session states are reached by a valid prefix with a reference-encoding peer. Case 0 replays the fixed witnesses of the defects found on the pinned tree; case 1 exhibits the recorded finding F15 (per-event copies of a 60,000-byte application name and stream key, one per one-byte zero-length message). Allocation explained by such copies is reported under F15's signature, anything beyond under the general one. Cases 2 and 3 feed a server and a client session 2^32 + 300 MiB in 16 MiB calls with an acknowledgement window of 1 GiB in force. Every library call runs under the panic monitor (overflow-checks and debug-assertions on), the allocator bound peak <= 256 x bytes fed + 33 MiB and the 20 s CPU watchdog. distinct = (target, state, generator) x bucketed observation (calls returning Ok, calls returning Err, messages decoded, number of calls).".to_string()
+        "targets {Handshake (both roles, with/without generated p0+p1), ChunkDeserializer + MessagePayload::to_rtmp_message on everything it returns, MessagePayload::to_rtmp_message / rml_amf0::deserialize on arbitrary (type id, body), ServerSession in 10 state classes, ClientSession in 10 state classes} x generators {random bytes (optionally with a valid basic header); well-formed chunk streams carrying arbitrary (type id, body) with bodies empty/short/random/valid/valid-truncated/wrong-arity AMF0/AMF0 nested <= 32/declared lengths with nothing behind/mutated; protocol commands and data messages with arbitrary argument lists (NaN, negative, huge, fractional ids; missing and ill-typed arguments; AMF3-flagged) interleaved with media and application calls with arbitrary ids; chunk-level hostility (shrinking length mid-message, delta headers with small extended timestamps, compressed headers on unseen csids, chunk sizes 0/1/2^31-1/top bit, aborts, zero-length messages, 16 MiB announced with few bytes, hundreds of distinct csids, stray type-3 chunks, arbitrary header fields); mutated valid foreign streams; valid foreign streams}, enumerated round-robin (every target-state x generator pair), each fed in a random partition. Session states are reached by a valid prefix with a reference-encoding peer. Case 0 replays the fixed witnesses of the defects found on the pinned tree; case 1 exhibits the recorded finding F15 (per-event copies of a 60,000-byte application name and stream key, one per one-byte zero-length message). Allocation explained by such copies is reported under F15's signature, anything beyond under the general one. Cases 4 and 5 give a deserializer and a server session a million one-byte messages in one call. Cases 2 and 3 feed a server and a client session 2^32 + 300 MiB in 16 MiB calls with an acknowledgement window of 1 GiB in force. Every library call runs under the panic monitor (overflow-checks and debug-assertions on), the allocator bound peak <= 256 x bytes fed + 33 MiB and the 20 s CPU watchdog. distinct = (target, state, generator) x bucketed observation (calls returning Ok, calls returning Err, messages decoded, number of calls).".to_string()
     }
     fn assumptions(&self) -> Vec<String> {
         vec![
